@@ -73,7 +73,7 @@ func c08Run(c *Ctx) {
 	d := GenDecl(c.Sub("d"), c08Cfg())
 	if inHistTail(c, 40000, 600000) {
 		// scoping follows the declaration as it is now, not as it was when a command was first selected
-		histCase(c, d, []string{"late-group-on-ancestor", "late-group-in-group", "rename-namespace", "delimiter", "rename-option"}, []string{"parse"})
+		histCase(c, d, []string{"late-group-on-ancestor", "late-group-in-group", "rename-namespace", "delimiter", "rename-option", "alias-added", "command-renamed", "alias-added", "command-renamed"}, []string{"parse"})
 		return
 	}
 	if len(d.Cmds) < 2 {
